@@ -11,7 +11,9 @@ func (r Ring) DivFloorByLastModulusNTT(p0, buff, p1 Poly) {
 
 	level := r.level
 
-	r.SubRings[level].INTTLazy(p0.Coeffs[level], buff.Coeffs[0])
+	// The last row is read as an integer in [0, q_level) by the other moduli: it must be fully reduced
+	// (INTTLazy returns values in [0, 2*q_level-1] for N < 16 and for the conjugate invariant ring).
+	r.SubRings[level].INTT(p0.Coeffs[level], buff.Coeffs[0])
 
 	for i, s := range r.SubRings[:level] {
 		s.NTTLazy(buff.Coeffs[0], buff.Coeffs[1])
@@ -98,7 +100,9 @@ func (r Ring) DivRoundByLastModulusNTT(p0, buff, p1 Poly) {
 
 	level := r.level
 
-	r.SubRings[level].INTTLazy(p0.Coeffs[level], buff.Coeffs[level])
+	// The last row is read as an integer in [0, q_level) by the other moduli: it must be fully reduced
+	// (INTTLazy returns values in [0, 2*q_level-1] for N < 16 and for the conjugate invariant ring).
+	r.SubRings[level].INTT(p0.Coeffs[level], buff.Coeffs[level])
 
 	// Center by (p-1)/2
 	pHalf := (r.SubRings[level].Modulus - 1) >> 1
